@@ -79,38 +79,40 @@ func c06r1(c *core.Ctx) {
 			if !(core.IsCall(i, "(*bytes.Buffer).Write") || core.IsInvoke(i, "io.Writer", "Write")) {
 				continue
 			}
-			arg := core.Args(i)[0]
+			arg0 := core.Args(i)[0]
 			if core.IsInvoke(i, "io.Writer", "Write") {
-				arg = core.CallOf(i).Args[0]
+				arg0 = core.CallOf(i).Args[0]
 			}
-			switch {
-			case core.AnySource(arg, func(s ssa.Value) bool {
-				return core.CallResult(s, 0, func(ci ssa.Instruction) bool { return ci == ssa.Instruction(seal) }) != nil
-			}):
-				wdesc = append(wdesc, "ciphertext")
-			default:
-				a := allocOf(arg)
-				if a == nil {
-					wdesc = append(wdesc, "?")
-					continue
-				}
-				if _, bits, little, _ := putUint(enc, a); bits != 0 {
-					wdesc = append(wdesc, fmt.Sprintf("uint%d/%s", bits, map[bool]string{true: "LE", false: "BE"}[little]))
-					continue
-				}
-				w, _ := widthOf(a.Type().(*types.Pointer).Elem())
-				fromTag := false
-				for _, r := range *a.Referrers() {
-					if st, ok := r.(*ssa.Store); ok && st.Addr == a {
-						if core.CallResult(st.Val, 1, func(ci ssa.Instruction) bool { return ci == ssa.Instruction(seal) }) != nil {
-							fromTag = true
+			for _, arg := range writtenPieces(arg0) {
+				switch {
+				case core.AnySource(arg, func(s ssa.Value) bool {
+					return core.CallResult(s, 0, func(ci ssa.Instruction) bool { return ci == ssa.Instruction(seal) }) != nil
+				}):
+					wdesc = append(wdesc, "ciphertext")
+				default:
+					a := allocOf(arg)
+					if a == nil {
+						wdesc = append(wdesc, "?")
+						continue
+					}
+					if _, bits, little, _ := putUint(enc, a); bits != 0 {
+						wdesc = append(wdesc, fmt.Sprintf("uint%d/%s", bits, map[bool]string{true: "LE", false: "BE"}[little]))
+						continue
+					}
+					w, _ := widthOf(a.Type().(*types.Pointer).Elem())
+					fromTag := false
+					for _, r := range *a.Referrers() {
+						if st, ok := r.(*ssa.Store); ok && st.Addr == a {
+							if core.CallResult(st.Val, 1, func(ci ssa.Instruction) bool { return ci == ssa.Instruction(seal) }) != nil {
+								fromTag = true
+							}
 						}
 					}
-				}
-				if fromTag {
-					wdesc = append(wdesc, fmt.Sprintf("tag[%d]", w))
-				} else {
-					wdesc = append(wdesc, fmt.Sprintf("bytes[%d]", w))
+					if fromTag {
+						wdesc = append(wdesc, fmt.Sprintf("tag[%d]", w))
+					} else {
+						wdesc = append(wdesc, fmt.Sprintf("bytes[%d]", w))
+					}
 				}
 			}
 		}
@@ -205,8 +207,12 @@ func c06r2(c *core.Ctx) {
 			val, bits, little, _ := putUint(enc, aad)
 			written := false
 			core.Instrs(enc, func(i ssa.Instruction) {
-				if core.IsCall(i, "(*bytes.Buffer).Write") && allocOf(core.Args(i)[0]) == aad {
-					written = true
+				if core.IsCall(i, "(*bytes.Buffer).Write") {
+					for _, pc := range writtenPieces(core.Args(i)[0]) {
+						if allocOf(pc) == aad {
+							written = true
+						}
+					}
 				}
 			})
 			lenOfMsg := val != nil && core.AnySource(val, func(sv ssa.Value) bool {
@@ -532,4 +538,13 @@ func c06r5(c *core.Ctx) {
 		c.Check(n > 0, "eof-ends-message@"+fname(dec), dec.Pos(), fmt.Sprintf("all %d paths on which the length read hits EOF return the message with a nil error", n),
 			"no path models end of input on the length read")
 	}
+}
+
+// writtenPieces: what one Write call puts on the wire, in order: the argument itself, or — when the argument is a frame composed
+// from several pieces (append chain, bytes.Join, copy into a pre-sized buffer) — those pieces.
+func writtenPieces(arg ssa.Value) []ssa.Value {
+	if parts, ok := byteSeq(arg); ok && len(parts) > 1 {
+		return parts
+	}
+	return []ssa.Value{arg}
 }
